@@ -5,6 +5,7 @@
 package rulesmon
 
 import (
+	"crypto/sha256"
 	"fmt"
 	"math/big"
 
@@ -17,6 +18,7 @@ import (
 	"verif/mon/chainsim"
 	"verif/mon/forksmon"
 	"verif/ref/refchain"
+	"verif/ref/ripemd160"
 )
 
 type probe struct {
@@ -506,6 +508,14 @@ func init() {
 	reg("sigops/80080-checkmultisig", "C04", []string{"bad-blk-sigops"}, func(c *ctx) *refchain.Block { return sigopsBlock(c, 1001, 0xae, false) })
 	reg("valid/sigops-80000-checkmultisig", "C04", valid, func(c *ctx) *refchain.Block { return sigopsBlock(c, 1000, 0xae, false) })
 	reg("sigops/80004-after-op_return", "C04", []string{"bad-blk-sigops"}, func(c *ctx) *refchain.Block { return sigopsBlock(c, 20001, 0xac, true) })
+	// sigops carried by spent outputs: P2SH redeem scripts (x4), native P2WSH witness scripts (x1) and
+	// P2SH-wrapped P2WSH (x1), each at the limit and just above it
+	reg("sigops/p2sh-redeem-80004", "C04", []string{"bad-blk-sigops"}, func(c *ctx) *refchain.Block { return spentSigops(c, "p2sh", 80004) })
+	reg("valid/sigops-p2sh-redeem-80000", "C04", valid, func(c *ctx) *refchain.Block { return spentSigops(c, "p2sh", 80000) })
+	reg("sigops/native-p2wsh-80001", "C04", []string{"bad-blk-sigops"}, func(c *ctx) *refchain.Block { return spentSigops(c, "p2wsh", 80001) })
+	reg("valid/sigops-native-p2wsh-80000", "C04", valid, func(c *ctx) *refchain.Block { return spentSigops(c, "p2wsh", 80000) })
+	reg("sigops/nested-p2sh-p2wsh-80001", "C04", []string{"bad-blk-sigops"}, func(c *ctx) *refchain.Block { return spentSigops(c, "nested", 80001) })
+	reg("valid/sigops-nested-p2sh-p2wsh-80000", "C04", valid, func(c *ctx) *refchain.Block { return spentSigops(c, "nested", 80000) })
 	reg("script/invalid-input", "C04", []string{"mandatory-script-verify-flag-failed"}, func(c *ctx) *refchain.Block {
 		var txs []*refchain.Tx
 		var fees uint64
@@ -556,6 +566,121 @@ func init() {
 		}
 		return c.g.Build(chainsim.BlockSpec{Parent: c.tip, CoinbaseScript: prevcb.In[0].ScriptSig, CoinbaseOuts: prevcb.Out, NoCommitment: true})
 	})
+}
+
+// sigopScript: spendable without any signature (OP_0 OP_IF ... OP_ENDIF OP_1) while its unexecuted
+// branch carries exactly n signature operations for the accurate counting rule
+// (OP_16 OP_CHECKMULTISIG = 16 each, OP_CHECKSIG = 1 each); at most 201 counted opcodes.
+func sigopScript(n int) []byte {
+	s := []byte{0x00, 0x63}
+	ops := 2
+	for n >= 16 && ops < 190 {
+		s = append(s, 0x60, 0xae)
+		n -= 16
+		ops++
+	}
+	for ; n > 0; n-- {
+		s = append(s, 0xac)
+		ops++
+	}
+	if ops > 201 {
+		return nil
+	}
+	return append(s, 0x68, 0x51)
+}
+
+func pushData(d []byte) []byte {
+	switch {
+	case len(d) < 0x4c:
+		return append([]byte{byte(len(d))}, d...)
+	case len(d) <= 0xff:
+		return append([]byte{0x4c, byte(len(d))}, d...)
+	}
+	return append([]byte{0x4d, byte(len(d)), byte(len(d) >> 8)}, d...)
+}
+
+func hash160(b []byte) []byte {
+	h := sha256.Sum256(b)
+	r := ripemd160.New()
+	r.Write(h[:])
+	return r.Sum(nil)
+}
+
+// spentSigops builds a block [coinbase, setup tx, spending tx]: the setup tx creates outputs whose
+// redeem / witness scripts carry signature operations, the spending tx spends them in the same
+// block, so that the block's total sigop cost is exactly `cost`.
+func spentSigops(c *ctx, flavor string, cost int) *refchain.Block {
+	if !c.segwit && flavor != "p2sh" {
+		return nil
+	}
+	scale := 1
+	if flavor == "p2sh" {
+		scale = 4
+	}
+	need := cost / scale
+	if cost%scale != 0 {
+		return nil
+	}
+	var scripts [][]byte
+	for need > 0 {
+		n := 16 * 187 // a full script
+		if need < n {
+			n = need
+		}
+		sc := sigopScript(n)
+		if sc == nil {
+			// remainder too long for one script in CHECKSIGs: split
+			n = 180
+			if need < n {
+				n = need
+			}
+			sc = sigopScript(n)
+		}
+		scripts = append(scripts, sc)
+		need -= n
+	}
+	ops, cs := c.take(1)
+	if ops == nil {
+		return nil
+	}
+	per := uint64(3000)
+	if cs[0].Value < per*uint64(len(scripts))+10000 {
+		return nil
+	}
+	var outs []refchain.TxOut
+	for _, sc := range scripts {
+		var spk []byte
+		w := sha256.Sum256(sc)
+		switch flavor {
+		case "p2sh":
+			spk = append(append([]byte{0xa9, 0x14}, hash160(sc)...), 0x87)
+		case "p2wsh":
+			spk = append([]byte{0x00, 0x20}, w[:]...)
+		default:
+			prog := append([]byte{0x00, 0x20}, w[:]...)
+			spk = append(append([]byte{0xa9, 0x14}, hash160(prog)...), 0x87)
+		}
+		outs = append(outs, refchain.TxOut{Value: per, Script: spk})
+	}
+	outs = append(outs, c.g.OutTrue(cs[0].Value-per*uint64(len(scripts))-1000))
+	setup := c.g.Spend(ops, cs, outs, 1, 0, nil, -1)
+	sid := setup.TxID()
+	spend := &refchain.Tx{Version: 1, Out: []refchain.TxOut{c.g.OutTrue(per*uint64(len(scripts)) - 1000)}}
+	for i, sc := range scripts {
+		in := refchain.TxIn{Prev: refchain.OutPoint{Hash: sid, Idx: uint32(i)}, Sequence: 0xffffffff}
+		w := sha256.Sum256(sc)
+		switch flavor {
+		case "p2sh":
+			in.ScriptSig = pushData(sc)
+		case "p2wsh":
+			in.Witness = [][]byte{sc}
+		default:
+			in.ScriptSig = pushData(append([]byte{0x00, 0x20}, w[:]...))
+			in.Witness = [][]byte{sc}
+		}
+		spend.In = append(spend.In, in)
+	}
+	return c.blockWith([]*refchain.Tx{setup, spend}, 2000, chainsim.BlockSpec{CoinbaseKind: chainsim.KTrue})
 }
 
 func maturity(c *ctx, depth uint32) *refchain.Block {
